@@ -1,6 +1,8 @@
 // Reference model (DESIGN Appendix A). Independent of the implementation's code:
 // nothing here includes or calls into a2o/snoopy.
 #include "model.hpp"
+#include <arpa/inet.h>
+#include <string.h>
 #include "core.hpp"
 #include <ctype.h>
 #include <string.h>
@@ -284,7 +286,77 @@ DsVal model_ds(const std::string &name, const std::string &arg, CallCtx &c) {
             p = pr->ppid;
         }
     }
-    else v.modelled = false;               // domain, ipaddr, systemd_unit_name, snoopy_configure_command
+    else if (name == "systemd_unit_name") {
+        // "SystemD unit name, as read from /proc/PID/cgroup (from line that starts with 1:name=systemd:...)": init.scope -> init,
+        // system.slice/X.service -> X, user.slice/user-UID.slice/... -> user name of UID, an empty path -> "-"
+        DsVal cg = model_ds("cgroup", "name=systemd", c);
+        if (!cg.modelled || cg.text.size() >= 255) { v.modelled = false; return v; }
+        if (cg.failed || cg.text == "(none)") { v.failed = true; v.text = "Cgroup entry 'name=systemd' not found"; return v; }
+        const std::string &e = cg.text;
+        size_t a = e.find(':'), b = a == std::string::npos ? a : e.find(':', a + 1);
+        bool well_formed = b != std::string::npos && b + 1 < e.size() && e[b + 1] == '/';
+        std::string rest = well_formed ? e.substr(b + 2) : "";
+        bool converted = false;
+        if (well_formed) {
+            if (rest.empty()) { v.text = "-"; converted = true; }
+            else if (rest.compare(0, 10, "init.scope") == 0) { v.text = "init"; converted = true; }
+            else if (rest.compare(0, 13, "system.slice/") == 0) {
+                std::string u = rest.substr(13); size_t dot = u.find('.');
+                v.text = (dot != std::string::npos && u.substr(dot) == ".service") ? u.substr(0, dot) : u; converted = true;
+            }
+            else if (rest.compare(0, 11, "user.slice/") == 0) {
+                std::string u = rest.substr(11); size_t dot = u.find('.');
+                if (u.compare(0, 5, "user-") == 0 && dot != std::string::npos) {
+                    std::string num = u.substr(5, dot - 5); bool digits = !num.empty() && num.size() <= 9; for (char ch : num) if (!isdigit((unsigned char)ch)) digits = false;
+                    if (!digits) { v.modelled = false; return v; }     // what a non-numeric uid field means is not documented
+                    uint32_t id = (uint32_t)atol(num.c_str()); const IdName *n = w.pw(id);
+                    v.text = n ? n->name.substr(0, 255) : "user-" + std::to_string((int)id); converted = true;
+                }
+            }
+        }
+        if (!converted) {   // a layout the converter does not know: the path as it stands, defined for the documented "1:name=systemd:/" prefix only
+            if (e.compare(0, 16, "1:name=systemd:/") == 0) v.text = e.substr(16); else v.modelled = false;
+        }
+    }
+    else if (name == "domain") {
+        // "Domain of current system": the text that follows "<hostname>." in the first /etc/hosts line (comments removed) containing it
+        if (w.hostname.empty()) { v.failed = true; v.text = "Got empty hostname"; return v; }
+        if (w.hostname.size() > 63) { v.modelled = false; return v; }
+        auto it = w.files.find("/etc/hosts");
+        if (it == w.files.end() || it->second.kind != 0 || it->second.open_errno) { v.failed = true; v.text = "Unable to open file for reading: /etc/hosts"; if (it != w.files.end() && it->second.kind != 0) v.modelled = false; return v; }
+        const std::string &h = it->second.content; std::string needle = w.hostname + ".";
+        for (auto &ch : needle) ch = (char)tolower((unsigned char)ch);
+        v.text = "(none)";
+        size_t pos = 0;
+        while (pos < h.size()) {
+            size_t nl = h.find('\n', pos); size_t end = nl == std::string::npos ? h.size() : nl + 1;
+            if (end - pos > 1023) end = pos + 1023;                       // the reader takes at most 1023 bytes at a time
+            std::string line = h.substr(pos, end - pos); pos = end;
+            if (line.find('\0') != std::string::npos) { v.modelled = false; return v; }
+            size_t hash = line.find('#'); if (hash != std::string::npos) line.resize(hash);
+            std::string low = line; for (auto &ch : low) ch = (char)tolower((unsigned char)ch);
+            size_t at = low.find(needle);
+            if (at == std::string::npos) continue;
+            size_t from = at + needle.size(), to = line.find_first_of(" \t\n\r", at);
+            v.text = line.substr(from, to == std::string::npos ? std::string::npos : (to < from ? 0 : to - from));
+            break;
+        }
+    }
+    else if (name == "ipaddr") {
+        // "IP address of a connected terminal": the address recorded in utmp for the terminal on stdin, "-" when there is none
+        v.text = "-";
+        if (w.tty_state != 2 || w.tty_path.size() + 1 > 37 || w.tty_path.compare(0, 5, "/dev/") != 0) return v;
+        std::string line = w.tty_path.substr(5).substr(0, 31);
+        for (auto &u : w.utmp) {
+            if (strncmp(u.line.c_str(), line.c_str(), 32) != 0) continue;
+            if (!u.addr[0] && !u.addr[1] && !u.addr[2] && !u.addr[3]) return v;
+            int32_t raw[4]; for (int k = 0; k < 4; k++) raw[k] = (int32_t)u.addr[k];
+            char buf[64] = "";
+            if (!u.addr[1] && !u.addr[2] && !u.addr[3]) inet_ntop(AF_INET, &raw[0], buf, sizeof buf); else inet_ntop(AF_INET6, raw, buf, sizeof buf);
+            v.text = buf; return v;
+        }
+    }
+    else v.modelled = false;               // snoopy_configure_command
     return v;
 }
 
